@@ -9,8 +9,8 @@ PLAN = dict(
              "'every term form (negative literals, -0, zero comparisons on both sides, empty clause lists, type arguments, ...) "
              "in every operand position, bare and parenthesised' (texts that do not parse are negative cases for the model parser), "
              "and n programs of the type-directed generator gen_fun; configurations: widths {1,2,5,10,20,40,80,100,200}+3 random in 1..200 "
-             "x indents {0,1,2,4,8}, plus print_to_string's default and omit_decl_sep (enumerated family: 4 of them per text in the quick tier, "
-             "all in the thorough tier). One evaluation = one (program, configuration) round trip parse-print-parse-print of the real crates, "
+             "x indents {0,1,2,4,8}, plus print_to_string's default and omit_decl_sep (files: all; enumerated family: 4 per text in the quick tier, 16 in the thorough tier; "
+             "generated programs: 12 resp. all). One evaluation = one (program, configuration) round trip parse-print-parse-print of the real crates, "
              "or one source-text accept/reject comparison, or one in-place replay; distinct = distinct programs",
         explanation="theorems: every rendering of the printed document at any width/indentation (any choice at each line/line_) lexes to the "
                     "same token stream; parse (tokens (print p)) = Some p for every parser-shaped p outside the zero-literal defect class, "
